@@ -78,9 +78,9 @@ Proof. exact suffix_forgets. Qed.
 Theorem C04_recovery : forall c, In c cfgs ->
   forall s m d d1, In s (Rof c) -> In m (ps_alpha (spec_of (snd c))) ->
   macro_done (iD (fst c) (spec_of (snd c))) (iPP (fst c) (spec_of (snd c))) (iisig (fst c) (spec_of (snd c)))
-             (ilr (fst c) (spec_of (snd c)) 0) (ilr (fst c) (spec_of (snd c)) 1) s m = Some d1 ->
+             (ilr (fst c) (spec_of (snd c)) 0) (ilr (fst c) (spec_of (snd c)) 1) (icref (fst c) (spec_of (snd c))) s m = Some d1 ->
   In d (macro_fields (iD (fst c) (spec_of (snd c))) (iPP (fst c) (spec_of (snd c))) (iisig (fst c) (spec_of (snd c)))
-                     (ilr (fst c) (spec_of (snd c)) 0) (ilr (fst c) (spec_of (snd c)) 1) s m) ->
+                     (ilr (fst c) (spec_of (snd c)) 0) (ilr (fst c) (spec_of (snd c)) 1) (icref (fst c) (spec_of (snd c))) s m) ->
   pair_ok (iD (fst c) (spec_of (snd c))) (iPP (fst c) (spec_of (snd c))) (d, d1) = true.
 Proof. exact recovery_spec. Qed.
 
